@@ -396,4 +396,29 @@ theorem handleCommand_refines (ext : Ext) (env : Env) (he : GenOptions.ExtIs ext
       simp only [hle, if_false, e1, hc, ne_eq, not_false_eq_true, if_true, CmdMatches]
       exact ⟨_, rfl, rfl, rfl⟩
 
+open Gen.Decode in
+/-- **the translated server `Write` never panics**: for every handler state and every chunk of bytes a client sends, the
+    function returns (all bytes taken, no error) — the stream is cut at ';' and each command goes through `handleCommand`,
+    none of whose guards fails -/
+theorem Write_ok (ext : Ext) (h : baseHandler) (p : GoString) :
+    ∃ h', baseHandler.Write ext h p = Outcome.ok (h', (p.length : Int), none) := by
+  unfold baseHandler.Write
+  dsimp only
+  have hl : (GoLen.len p : Int) = (p.length : Int) := rfl
+  rw [hl]
+  clear hl
+  generalize (p.length : Int) = n
+  induction p generalizing h with
+  | nil => exact ⟨h, rfl⟩
+  | cons b rest ih =>
+    rw [goRange_cons]
+    by_cases hb : (b == 59) = true
+    · simp only [hb, if_true]
+      obtain ⟨h1, he⟩ := handleCommand_ok ext h h.writeBuf
+      rw [he]
+      simp only []
+      exact ih { h1 with writeBuf := [] }
+    · simp only [hb, Bool.false_eq_true, if_false]
+      exact ih { h with writeBuf := h.writeBuf ++ [b] }
+
 end Dtail.GenDecode
